@@ -51,6 +51,8 @@ func mantExp(x int64) []int64 { // x = m * 2^k with m odd (0 -> 0,0)
 
 func evSetOps(t *Tracer, x, y []int64, target int64) {
 	xs, ys := append([]int64(nil), x...), append([]int64(nil), y...)
+	const sent = int64(-987654321)
+	x, y = spareOf(x, sent), spareOf(y, sent) // spare capacity behind both arguments, as for a caller's sub-slices
 	e := absW.ev("SetOps", map[string]any{"x": x, "y": y, "t": target})
 	o, _ := guard(func() (any, error) {
 		e.R = map[string]any{
@@ -66,7 +68,7 @@ func evSetOps(t *Tracer, x, y []int64, target int64) {
 	for i := range y {
 		kept = kept && y[i] == ys[i]
 	}
-	e.A["kept"] = kept
+	e.A["kept"] = kept && tailIntact(x, sent) && tailIntact(y, sent)
 	if o != "ok" {
 		e.Bad = "outcome " + o
 		e.R = map[string]any{"union": []int64{}, "inter": []int64{}, "diff": []int64{}, "uniq": []int64{}, "incl": false}
